@@ -84,8 +84,11 @@ def check_divide(src, table):
     eps = ("x", "val", (("p", "EPSILON"),))
     div = ("app", "Expr::from", (("app", "Function::divide", (l, r)),))
     want = ("x", "Case", (("x", "Or", (("x", "GtEq", (r, eps)), ("x", "LtEq", (r, ("app", "neg", (eps,)))))), div, ("x", "val", (num(0),))))
-    ok2 = w == want
-    return ok1 and ok2, {"Function::divide": fmt(v), "Expr::divide": fmt(w)}
+    ok2 = w == want and not it.returns  # an early `return` is another value of divide(l, r): the guarded quotient must be the only one
+    desc = {"Function::divide": fmt(v), "Expr::divide": fmt(w)}
+    if it.returns:
+        desc["Expr::divide early returns"] = [fmt(x)[:200] for x in it.returns]
+    return ok1 and ok2, desc
 
 
 def _pname(fn, i):
